@@ -3,6 +3,8 @@
 package internal
 
 import (
+	crand "crypto/rand"
+	"io"
 	"bytes"
 	"fmt"
 	"math/big"
@@ -352,6 +354,34 @@ func TestVerifC15(t *testing.T) {
 		}
 		r.Eval("decoded-as-receiver:" + op)
 	}
+	// ---- the process-wide randomness source is HOSTILE while conversions and arithmetic run (all zero, all ones, ending,
+	//      failing): nothing in the statement lets a result depend on it (a blinding that trusts its mask does)
+	{
+		type src struct {
+			name string
+			rd   io.Reader
+		}
+		P := ref.BaseMulFast(randScalarI(rng))
+		want := append([]byte{4}, append(ref.B32(P.X), ref.B32(P.Y)...)...)
+		for _, sc := range []src{{"all-zero", c15constReader(0)}, {"all-ff", c15constReader(0xff)}, {"empty", bytes.NewReader(nil)}, {"failing", c15failReader{}}, {"p-then-zero", io.MultiReader(bytes.NewReader(ref.B32(ref.SM2P)), c15constReader(0))}} {
+			saved := crand.Reader
+			crand.Reader = sc.rd
+			var gotB, gotU []byte
+			var gx *big.Int
+			var dbl ref.Pt
+			p, msg, _, _ := hk.Try(func() {
+				rep := fromRef(P, lambdas(rng))
+				gotB, gotU, gx = rep.Bytes(), rep.Bytes_Unsafe(), rep.GetAffineX()
+				dbl, _ = toRef(NewSM2Point().Double(rep))
+			})
+			crand.Reader = saved
+			if p || !bytes.Equal(gotB, want) || !bytes.Equal(gotU, want) || gx == nil || gx.Cmp(P.X) != 0 || !dbl.Eq(P.Dbl()) {
+				r.Violation("result-depends-on-the-process-wide-randomness-source:"+sc.name, hk.D{"point": ptHex(P), "bytes": hk.Hex(gotB), "want": hk.Hex(want), "panic": msg})
+			}
+			r.Eval("hostile-global-randomness:" + sc.name)
+		}
+	}
+
 	// ---- representatives whose intermediates have chosen internal values (zz_verif_c15reps_test.go)
 	c15chosenRepresentatives(r, rng)
 
@@ -483,6 +513,13 @@ func TestVerifC15(t *testing.T) {
 				}
 				var gotB, gotU []byte
 				var gx *big.Int
+				wantInf := 0
+				if shadow[i].Inf {
+					wantInf = 1
+				}
+				if objs[i].IsInfinity() != wantInf {
+					r.Violation("walk:IsInfinity-wrong-on-long-lived-point", hk.D{"history": hist, "object": i, "got": objs[i].IsInfinity(), "want": wantInf, "z_is_zero": rawBig(objs[i].z).Sign() == 0})
+				}
 				p, msg, _, _ := hk.Try(func() {
 					gotB, gotU = objs[i].Bytes(), objs[i].Bytes_Unsafe()
 					if !shadow[i].Inf {
@@ -666,3 +703,17 @@ func leading(b []byte) int {
 	}
 	return n
 }
+
+
+type c15constReader byte
+
+func (c c15constReader) Read(p []byte) (int, error) {
+	for i := range p {
+		p[i] = byte(c)
+	}
+	return len(p), nil
+}
+
+type c15failReader struct{}
+
+func (c15failReader) Read(p []byte) (int, error) { return 0, io.ErrClosedPipe }
